@@ -889,6 +889,10 @@ func designatorRoots(x SExpr, env map[string]types.Type, ws *writeSet) bool {
 			return true
 		}
 	case SIndex:
+		if sel, ok := x.X.(SSel); ok && strings.HasPrefix(sel.Name, "ghost_") {
+			ws.roots[typeKey(types.Typ[types.UnsafePointer])] = true
+			return true
+		}
 		t := specStaticType(x.X, env)
 		if t == nil {
 			return false
